@@ -9,6 +9,7 @@ import (
 	"os"
 	"path/filepath"
 	"strings"
+	"sync"
 	"sync/atomic"
 	"syscall"
 	"testing"
@@ -48,6 +49,15 @@ func (c fileCase) bytes() []byte {
 }
 
 func replay(sub string, raw json.RawMessage) ([]h.Failure, error) {
+	if sub == "concurrent" {
+		// (a schedule cannot be replayed: the rounds are run again)
+		for round := 0; round < 300; round++ {
+			if fails := concurrentRound(); len(fails) > 0 {
+				return fails, nil
+			}
+		}
+		return nil, nil
+	}
 	var c fileCase
 	if err := json.Unmarshal(raw, &c); err != nil {
 		return nil, err
@@ -409,6 +419,67 @@ func TestOddCharacters(t *testing.T) {
 		}
 	}
 	h.R.Exhaustive("oddchar", "40 odd code points (controls incl. U+0000, format characters, noncharacters, unusual spaces) inserted at every character offset before the last statement of 3 programs")
+}
+
+// several files decoded at the same time (what concurrent requests of the server do): each
+// decode yields the text of ITS file
+const concWorkers = 8
+
+var concPaths, concWants []string
+
+func concurrentSetup() {
+	if concPaths != nil {
+		return
+	}
+	for w := 0; w < concWorkers; w++ {
+		unit := []string{"甲", "乙é", "a", "😊丙", "丁丁丁", "b你", "𝒳", "戊"}[w]
+		text := fmt.Sprintf("注：file %d\n", w) + strings.Repeat(unit, 1500+w*733)
+		concWants = append(concWants, text)
+		p := filepath.Join(tmpDir, fmt.Sprintf("conc-%d-%d.zn", os.Getpid(), w))
+		os.WriteFile(p, []byte(text), 0o644)
+		concPaths = append(concPaths, p)
+	}
+}
+
+func concurrentRound() []h.Failure {
+	concurrentSetup()
+	errs := make([]string, concWorkers)
+	var wg sync.WaitGroup
+	for w := 0; w < concWorkers; w++ {
+		wg.Add(1)
+		go func(w int) {
+			defer wg.Done()
+			fs, err := zio.NewFileStream(concPaths[w])
+			if err != nil {
+				errs[w] = "open: " + err.Error()
+				return
+			}
+			got, err := fs.ReadAll()
+			if err != nil {
+				errs[w] = fmt.Sprintf("file %d (valid UTF-8, %d bytes) rejected while %d other files were being decoded: %v", w, len(concWants[w]), concWorkers-1, err)
+			} else if string(got) != concWants[w] {
+				errs[w] = fmt.Sprintf("file %d decoded to another text (%d characters instead of %d) while %d other files were being decoded", w, len(got), len([]rune(concWants[w])), concWorkers-1)
+			}
+		}(w)
+	}
+	wg.Wait()
+	for _, e := range errs {
+		if e != "" {
+			return []h.Failure{{Sig: "decode/concurrent-decodes-interfere", Msg: e}}
+		}
+	}
+	return nil
+}
+
+func TestConcurrentDecodes(t *testing.T) {
+	rounds := h.Scale(60, 1500)
+	for round := 0; round < rounds; round++ {
+		fails := concurrentRound()
+		h.R.Case(t, "concurrent", fmt.Sprint("round-", round), map[string]int{"round": round, "files": concWorkers}, []string{"concurrent-decodes"}, true, fails)
+		if len(fails) > 0 {
+			break
+		}
+	}
 }
 
 func TestCorpus(t *testing.T) { h.RunCorpus(t, "c17", replay) }
